@@ -733,8 +733,9 @@ def run(repo: Repo, rep: Report, tier: str) -> None:
     from .c03 import block_alignment_rule
 
     shape_rule(repo, rep, tier, block_alignment_rule, "C04.R15")
+    from .c05 import codec_fold_rule as _cfr
 
+    _cfr(repo, rep, "C04.R17")
+    from .c13 import loadfile_rule
 
-
-
-
+    loadfile_rule(repo, rep, "C04.R18")
